@@ -5,6 +5,7 @@
 package c10
 
 import (
+	"bufio"
 	"bytes"
 	"fmt"
 	"strings"
@@ -85,8 +86,50 @@ func one(r *cm.HTMLRenderer, blocks []*cm.RootBlock, refs cm.ReferenceMap, soft 
 	if buf2.String() != buf.String() {
 		return fmt.Errorf("rendering twice gave different output")
 	}
+	// what Render writes does not depend on the writer: a buffer that already
+	// holds bytes and has spare capacity, a buffer that was used and reset, a
+	// buffered writer, a string builder and a writer with no method but Write
+	// all receive the same bytes (under four of the configurations: the writer
+	// is independent of the configuration)
+	if soft != cm.SoftBreakPreserve || (spec != "nil" && spec != "gfm") {
+		return nil
+	}
+	pre := bytes.NewBufferString("<!-- head -->")
+	pre.Grow(len(buf.Bytes()) + 4096)
+	r.Render(pre, blocks)
+	if got := pre.String(); got != "<!-- head -->"+buf.String() {
+		return fmt.Errorf("Render into a bytes.Buffer that holds a prefix and has spare capacity wrote %q, want the prefix followed by %q", got, buf.String())
+	}
+	pre.Reset()
+	r.Render(pre, blocks)
+	if pre.String() != buf.String() {
+		return fmt.Errorf("Render into a reused (Reset) bytes.Buffer wrote %q, want %q", pre.String(), buf.String())
+	}
+	var under bytes.Buffer
+	bw := bufio.NewWriterSize(&under, 64+len(buf.Bytes())/3)
+	r.Render(bw, blocks)
+	bw.Flush()
+	if under.String() != buf.String() {
+		return fmt.Errorf("Render into a bufio.Writer wrote %q, want %q", under.String(), buf.String())
+	}
+	var sb strings.Builder
+	r.Render(&sb, blocks)
+	if sb.String() != buf.String() {
+		return fmt.Errorf("Render into a strings.Builder wrote %q, want %q", sb.String(), buf.String())
+	}
+	var po plainOnly
+	r.Render(&po, blocks)
+	if string(po.b) != buf.String() {
+		return fmt.Errorf("Render into a plain io.Writer wrote %q, want %q", po.b, buf.String())
+	}
 	return nil
 }
+
+// plainOnly is an io.Writer without any other method; it copies what it is
+// given (a writer must not keep p).
+type plainOnly struct{ b []byte }
+
+func (w *plainOnly) Write(p []byte) (int, error) { w.b = append(w.b, p...); return len(p), nil }
 
 func clip(b []byte) []byte {
 	if len(b) > 160 {
@@ -186,7 +229,7 @@ func genCase(g *rapid.Generator[[]byte]) func(t *rapid.T) harness.Case {
 const rule = "tree = Parse(G1/G2/G3 input) x 3 soft-break behaviours x IgnoreRaw x FilterTag{nil, GFM, always, never, generated name set}; oracle = lock-step match of AppendBlock output against the reference renderer's token list (text and attribute values entity-decoded, raw HTML byte for byte or '<'->'&lt;' under a filter), plus determinism, purity, empty output for definitions, Render == AppendBlock outputs joined by blank lines, prefix preservation, RenderHTML == default; non-trivial = tree has an image, character reference, raw HTML, soft break, list or reference definition"
 
 func plan() harness.Plan {
-		return harness.Plan{Prop: "C10", Suppress: findings.Suppressor("C10"), Checks: []harness.Check{
+	return harness.Plan{Prop: "C10", Suppress: findings.Suppressor("C10"), Checks: []harness.Check{
 		{Name: "render", Quick: 30000, Thorough: 400000, Gen: genCase(gen.Doc()), Prop: prop, Rule: rule},
 		{Name: "render_html", Quick: 15000, Thorough: 200000, Gen: genCase(gen.HTMLSoup()), Prop: prop, Rule: "raw-HTML-heavy inputs (comments, CDATA, upper/mixed-case tag names of equal lengths, raw-text elements): " + rule},
 		{Name: "render_sinks", Quick: 15000, Thorough: 200000, Gen: genCase(gen.Sink()), Prop: prop, Rule: "hostile payloads (quotes, references, percent escapes, NUL, invalid UTF-8, white-space references) placed where text reaches an attribute or an element (destinations, titles, info strings, alt text, autolinks, list starts): " + rule},
